@@ -9,8 +9,8 @@
    and decodes it the way encoding/json fills the Go structs.  "Malformed" is defined on the text
    side (C12_Spec: v_metrics / v_admission / v_conversion, three-valued); the theorems tie the two
    together for ALL byte strings.  The patch file is YAML: one of four kinds, as before.
-   KNOWN DEFECT carried as refuted/partial: a conversion response followed by other data is
-   accepted (trigger C12_Spec.T_conv). *)
+   A conversion response followed by other data used to be accepted (found here, repaired by
+   1bbc0df): the model follows the repaired code and the full statement is a theorem. *)
 From Verif Require Import Common Json JsonText JsonText_Proofs C12_Model C12_Spec C12_Corr C12_Proofs.
 Open Scope N_scope.
 
@@ -20,10 +20,10 @@ Theorem C12_tmp_removed : forall i, o_remaining (run i) = 0.
 Proof. exact run_remaining. Qed.
 Print Assumptions C12_tmp_removed.
 
-(* where the text side decides (all_wf i = Some b) and outside the trigger: a started execution
+(* where the text side decides (all_wf i = Some b): a started execution
    succeeds iff the exit code is zero and all four outputs are well-formed *)
 Theorem C12_success_iff : forall i b,
-  o_started (run i) = true -> T_conv i = false -> all_wf i = Some b ->
+  o_started (run i) = true -> all_wf i = Some b ->
   (o_success (run i) = true <-> (i_exit i = 0%Z /\ b = true)).
 Proof. exact run_success_spec. Qed.
 Print Assumptions C12_success_iff.
@@ -75,8 +75,7 @@ Theorem C12_admission_wellformed_iff : forall k b, v_admission k = Some b -> adm
 Proof. exact admission_agree. Qed.
 Print Assumptions C12_admission_wellformed_iff.
 
-Theorem C12_conversion_wellformed_iff : forall i b,
-  T_conv i = false -> v_conversion (i_conversion i) = Some b -> conversion_parses (i_conversion i) = b.
+Theorem C12_conversion_wellformed_iff : forall k b, v_conversion k = Some b -> conversion_parses k = b.
 Proof. exact conversion_agree. Qed.
 Print Assumptions C12_conversion_wellformed_iff.
 
@@ -121,6 +120,12 @@ Theorem C12_conversion_truncated_fails : forall i j p q,
   v_conversion (i_conversion i) = Some false /\ o_success (run i) = false.
 Proof. exact conversion_truncated_fails. Qed.
 Print Assumptions C12_conversion_truncated_fails.
+
+Theorem C12_conversion_stray_fails : forall i a j w c rest,
+  i_conversion i = FText (a ++ w ++ c :: rest) -> parse_single a = Some j -> all_ws w = true -> stray c = true ->
+  v_conversion (i_conversion i) = Some false /\ o_success (run i) = false.
+Proof. exact conversion_stray_fails. Qed.
+Print Assumptions C12_conversion_stray_fails.
 
 Theorem C12_conversion_leading_stray_fails : forall i w c rest,
   i_conversion i = FText (w ++ c :: rest) -> all_ws w = true -> stray c = true ->
@@ -170,19 +175,12 @@ Theorem C12_json_whitespace_only : forall s, all_ws s = true -> parse_stream s =
 Proof. intros s H. split; [now apply stream_ws | now apply single_ws]. Qed.
 Print Assumptions C12_json_whitespace_only.
 
-(* ---- the whole predicate; the conversion finding ---- *)
+(* ---- the whole predicate ---- *)
 
-(* the full statement: the logic half of P holds of the model on every input ... *)
+(* the full statement: the logic half of P holds of the model on every input *)
 Definition C12_full_statement : Prop := forall i o, P_logic i (model_obs (i, o)) = true.
 
-(* ... is false: a conversion response followed by other data is malformed and accepted
-   (witness: the file `{"convertedObjects":[]} x`) *)
-Theorem C12_conv_trailing_refuted : exists i o, T_conv i = true /\ P_logic i (model_obs (i, o)) = false.
-Proof. exists conv_witness, any_obs. destruct conv_refuted as (H1 & H2 & _). auto. Qed.
-Print Assumptions C12_conv_trailing_refuted.
-
-(* ... and true everywhere else *)
-Theorem C12_model_P_logic : forall i o, T_conv i = false -> P_logic i (model_obs (i, o)) = true.
+Theorem C12_model_P_logic : C12_full_statement.
 Proof. exact model_P_logic. Qed.
 Print Assumptions C12_model_P_logic.
 
@@ -209,10 +207,16 @@ Example C12_hyp_met :
   /\ all_wf (mkIn 0 (FText (ex_metrics_ok ++ [] ++ 125 :: ex_metrics_ok)) FEmpty FEmpty FEmpty false 0) = Some false
   (* the truncation class: the first 20 bytes of the first document *)
   /\ print_value (nth 0 ex_docs JNull) = firstn 20 ex_metrics_ok ++ skipn 20 (print_value (nth 0 ex_docs JNull))
+  (* a conversion response followed by other data: malformed, fails ({"convertedObjects":[]} x) *)
+  /\ parse_single [123; 34; 99; 111; 110; 118; 101; 114; 116; 101; 100; 79; 98; 106; 101; 99; 116; 115; 34; 58; 91; 93; 125] <> None
+  /\ all_wf (mkIn 0 FEmpty FEmpty FEmpty (FText [123; 34; 99; 111; 110; 118; 101; 114; 116; 101; 100; 79; 98; 106; 101; 99; 116; 115; 34; 58; 91; 93; 125; 32; 120]) false 0) = Some false
+  /\ o_success (run (mkIn 0 FEmpty FEmpty FEmpty (FText [123; 34; 99; 111; 110; 118; 101; 114; 116; 101; 100; 79; 98; 106; 101; 99; 116; 115; 34; 58; 91; 93; 125; 32; 120]) false 0)) = false
   (* verdicts that do not decide: a key in another letter case *)
   /\ v_metrics (FText [123; 34; 78; 65; 77; 69; 34; 58; 34; 109; 34; 44; 34; 115; 101; 116; 34; 58; 49; 125]) = None.
 Proof.
   repeat (split; [vm_compute; reflexivity|]).
   split; [intros d [<-|[<-|[]]]; vm_compute; reflexivity|].
+  repeat (split; [vm_compute; reflexivity|]).
+  split; [vm_compute; discriminate|].
   repeat (split; [vm_compute; reflexivity|]). vm_compute; reflexivity.
 Qed.
